@@ -74,6 +74,8 @@ type WorkerResult struct {
 	SigShift uint                   `json:"sig_shift"`
 	LogHash  uint64                 `json:"log_hash"`
 	Failure  *kit.Trace             `json:"failure,omitempty"`
+	FailN    int64                  `json:"fail_n"`
+	Stride   int64                  `json:"stride"`
 	Known    map[string]*KnownHit   `json:"known,omitempty"`
 	Samples  []*kit.Trace           `json:"samples,omitempty"`
 	WallS    float64                `json:"wall_s"`
@@ -114,7 +116,7 @@ func cmdWork(args []string) int {
 		}
 	}
 	st := kit.NewStats()
-	res := &WorkerResult{Property: *prop, Seed: *seed, First: *start, Known: map[string]*KnownHit{}}
+	res := &WorkerResult{Property: *prop, Seed: *seed, First: *start, Stride: *stride, Known: map[string]*KnownHit{}}
 	t0 := time.Now()
 	sigs := map[uint64]struct{}{}
 	shift := uint(0)
@@ -167,6 +169,7 @@ func cmdWork(args []string) int {
 		}
 		if o.Viol != nil {
 			res.Failure = o.Trace
+			res.FailN = n
 			break
 		}
 		idx += *stride
@@ -238,7 +241,24 @@ func cmdReplay(args []string) int {
 		}
 	}
 	var o *kit.Outcome
-	if t.Kind == "regenerate-from-seed" {
+	if t.Kind == "regenerate-sequence" {
+		// the violation depends on state the library keeps across runs in one
+		// process (package-level caches, pools): re-draw the worker's runs
+		// from..to in this fresh process
+		st := kit.NewStats()
+		for n := t.Cfg("from", 0); n <= t.Cfg("to", 0); n++ {
+			o = eng.Run(kit.Mix(t.Seed, uint64(t.Cfg("start", 0)+n*t.Cfg("stride", 1))), st)
+			if o.Viol != nil {
+				break
+			}
+		}
+		if o == nil {
+			o = &kit.Outcome{}
+		}
+		if o.Viol != nil {
+			o.Viol.Detail = fmt.Sprintf("(in a process that first executed runs %d..%d of this worker sequence; the violation does not appear when the last run is executed alone, so the library carries state from one use to the next)\n", t.Cfg("from", 0), t.Cfg("to", 0)-1) + o.Viol.Detail
+		}
+	} else if t.Kind == "regenerate-from-seed" {
 		// crash replays: the run is re-drawn from its seed (a process crash
 		// leaves no recorded trace to replay)
 		o = eng.Run(t.Seed, kit.NewStats())
